@@ -10,19 +10,26 @@ rows (struct flattened), a projection, the unfiltered scan and the result column
 """
 import json
 from common import *
-from fexpr import render
+from fexpr import render, has_notin_or, NOTIN_KEY
 
 POOL = ["a", "ab", "b", "ba", "c"]
 NAMES = ["a", "b", "s", "st['p']", "st['q']"]
 
 
+def known_key(v):
+    c = v.get("case") or {}
+    if not v.get("error") and not v.get("missing_rows") and v.get("unexpected_rows") and has_notin_or(c.get("filter")):
+        return NOTIN_KEY
+    return None
+
+
 def run(ctx):
     build("vfiles")
     if ctx.replay:
-        run_harness(ctx, "vfiles", ["c44", "--replay", ctx.replay, "--out", ctx.path("res.json")])
+        run_harness(ctx, "vfiles", ["c44", "--replay", os.path.abspath(ctx.replay), "--out", ctx.path("res.json")])
         res = json.load(open(ctx.path("res.json")))
         for v in res["violations"]:
-            report_violation(ctx, v)
+            report_violation(ctx, v, key=known_key(v))
         write_evidence(ctx, "exploration", {"evaluations": max(1, res["evaluations"]), "distinct_nontrivial": 2, "rule": "replay of one recorded case",
                                             "samples": res["samples"] or [{"replay": ctx.replay}]})
         return
@@ -56,7 +63,7 @@ def run(ctx):
     if res["tool_errors"]:
         raise ToolError("harness machinery errors: " + "; ".join(res["tool_errors"][:3]))
     for v in res["violations"]:
-        report_violation(ctx, v)
+        report_violation(ctx, v, key=known_key(v))
     variants = {json.dumps(f["v"], sort_keys=True) for c in cases for f in c["files"]}
     write_evidence(ctx, "exploration", {
         "evaluations": res["evaluations"],
